@@ -1493,6 +1493,28 @@ Module NVB_C19.
       (shiftf (krcv_delay kz_sc kz_recv w s) (nthT (khist (kord kz_E k) w 0 s)) 21 * krcv_factor kz_sc kz_recv w s 0)%T))).
   Proof. apply (C19_response kz_sc 40 kz_E kz_recv 2 0 21). lia. Qed.
 
+  (** C19_drop, C19_direct, C19_run_is_recursion (index ranges only) *)
+  Example drop_applies :
+    nthT (shift_trunc 5 2 [1; 2; 3; 4; 5]) 1 = 0 /\ nthT (shift_trunc 5 2 [1; 2; 3; 4; 5]) 4 = 3 /\
+    hsum 5 (nthT (shift_trunc 5 2 [1; 2; 3; 4; 5])) = hsum 3 (nthT [1; 2; 3; 4; 5]).
+  Proof.
+    pose proof (C19_drop 5 2 [1; 2; 3; 4; 5]) as (H1 & H2 & _ & _ & H5 & _).
+    split; [exact (H1 1%nat ltac:(lia) ltac:(lia))|]. split; [exact (H2 4%nat ltac:(lia) ltac:(lia))|].
+    exact (H5 ltac:(lia)).
+  Qed.
+  Example direct_applies :
+    nthT (kresp kz_sc 40 kz_E 2 kz_recv false 0) 7 =
+    (nthT (kresp kz_sc 40 kz_E 2 kz_recv true 0) 7 +
+     (if (7 =? kdelay kz_sc (tsqrt (vdist2 kz_recv (ks_src kz_sc))))%nat then
+        ((1 / ((tofnat 4 * tpi) * (tsqrt (vdist2 kz_recv (ks_src kz_sc)) * tsqrt (vdist2 kz_recv (ks_src kz_sc))))) *
+         texp ((- katt kz_sc 0 0) * tsqrt (vdist2 kz_recv (ks_src kz_sc))))
+      else 0))%T.
+  Proof. exact (proj1 (C19_direct kz_sc 40 kz_E kz_recv 2 0) 7%nat ltac:(lia)). Qed.
+  Example run_is_recursion_applies :
+    kord (kang_run kz_sc 2) 1 =
+    korder kz_sc (kN kz_sc) (kang_ffs kz_sc) (kinit_with kz_sc (kdelay0 kz_sc) (ke0 kz_sc) (kN kz_sc)) 1.
+  Proof. exact (proj2 (C19_run_is_recursion kz_sc 2 1) ltac:(lia)). Qed.
+
   (** C19_cyclic on a scene WITH orthogonal walls (KangExample's scene has two parallel walls only, so
       the clause of [cyc_ok] about orthogonal pairs is not exercised there): floor (normal z, centre
       (2,2,0)), ceiling (normal z, centre (2,2,4)) and a side wall (normal x, centre (0,2,2)), each
